@@ -15,7 +15,7 @@ fn log2_fast(x: usize) -> usize {
 }
 /// the crate's current heuristic, recomputed only to label cases in the evidence
 pub fn predicted_rebuild(len: usize, k: usize, hint: Hint) -> bool {
-    let h = Hinted { inner: std::iter::empty::<(Key, Prio)>(), remaining: k, hint, done: false, poison: 0 }.size_hint();
+    let h = Hinted { inner: std::iter::empty::<(Key, Prio)>(), remaining: k, hint, done: false, poison: 0, fresh: k }.size_hint();
     let est = match h {
         (_, Some(max)) => max,
         (min, None) if min != 0 => min,
@@ -99,12 +99,13 @@ impl<'c, Q: Queue> Interp<'c, Q> {
                 clash = true;
             }
         }
+        let fresh = ids.iter().filter(|id| !self.model.contains(**id)).count();
         if self.cfg.hint_meta {
             let base = self.q.clone();
             let rp2 = rp.clone();
             self.hint_metamorphic("extend", |h| {
                 let mut c = base.clone();
-                c.extend_with(hinted(&rp2, h));
+                c.extend_with(hinted_fresh(&rp2, h, fresh));
                 c
             });
             let mut both = [false, false];
@@ -116,7 +117,7 @@ impl<'c, Q: Queue> Interp<'c, Q> {
             }
         }
         self.stats.hit(if predicted_rebuild(n, k, hint) { "extend_pred_rebuild" } else { "extend_pred_push" });
-        self.q.extend_with(hinted(&rp, hint));
+        self.q.extend_with(hinted_fresh(&rp, hint, fresh));
         let mut offered: BTreeMap<u32, Vec<u32>> = BTreeMap::new();
         for &(id, tag, p) in rp.iter() {
             offered.entry(id).or_default().push(tag);
